@@ -239,7 +239,7 @@ def decapFirst (mgr : MgrFn) (ds : Dec) (buf : Bytes) (lt : LabelType) (pktLen g
                   | (.panic, m1) => ⟨.panic, 0, ⟨m1, last'⟩⟩
                   | (.err e, m1) => ds.fail m1 (.memory e) pktLen
                   | (.ok (ctx, st), m1) =>
-                    if st.data.length + labelLen + PROTOCOL_LEN + FRAG_ID_LEN + TOTAL_LENGTH_LEN < gseLen then
+                    if st.data.length + labelLen + w.len + PROTOCOL_LEN + FRAG_ID_LEN + TOTAL_LENGTH_LEN < gseLen then
                       giveBack m1 none st .sizePduBuffer pktLen
                     else
                       match (slice buf off n).bind (blit st.data 0) with
